@@ -381,7 +381,10 @@ async def _wait_for_depletion(
 ) -> None:
 
     # Notify all the workers to finish now. Wake them up if they are waiting in the queue-getting.
+    # Also wake up the processors that sleep for their delays or for the next events, so that
+    # they neither hold the exit for the whole timeout nor act after the operator has exited.
     for stream in streams.values():
+        stream.pressure.set()
         await stream.backlog.put(EOS.token)
 
     # Wait for the queues to be depleted, but only if there are some workers running.
